@@ -177,6 +177,23 @@ pub struct Printed {
     pub stdout_hash: u64,
 }
 
+/// The first `Pnnnn` that stands as a word of its own in the line.
+fn find_problem_code(line: &str) -> Option<String> {
+    let b = line.as_bytes();
+    let mut i = 0;
+    while i + 5 <= b.len() {
+        if b[i] == b'P' && b[i + 1..i + 5].iter().all(|c| c.is_ascii_digit()) {
+            let before_ok = i == 0 || !(b[i - 1].is_ascii_alphanumeric() || b[i - 1] == b'_');
+            let after_ok = i + 5 == b.len() || !(b[i + 5].is_ascii_alphanumeric() || b[i + 5] == b'_');
+            if before_ok && after_ok {
+                return Some(line[i..i + 5].to_string());
+            }
+        }
+        i += 1;
+    }
+    None
+}
+
 pub fn parse_printed(stdout: &str, stderr: &str) -> Printed {
     let err = crate::seam::strip_ansi(stderr);
     let mut p = Printed { stdout_lines: stdout.lines().count(), stdout_hash: crate::prng::hash_str(stdout), ..Printed::default() };
@@ -198,9 +215,15 @@ pub fn parse_printed(stdout: &str, stderr: &str) -> Printed {
         if line.trim_end() == "OK" {
             p.ok_lines_stderr += 1;
         }
+        // a coded diagnostic: the header `error[Pnnnn]` of the current renderer, or — should the
+        // format change — any line that carries a problem code as a word of its own
         if let Some(rest) = line.strip_prefix("error[") {
             if let Some(end) = rest.find(']') {
                 p.codes.push(rest[..end].to_string());
+            }
+        } else if !line.contains('│') && !line.contains("┌─") {
+            if let Some(code) = find_problem_code(line) {
+                p.codes.push(code);
             }
         }
         if let Some(pos) = line.find("┌─ ") {
